@@ -197,12 +197,14 @@ CLAIMED = {
         "otherwise the extent is zero-filled, the chunk marked failed and dl_write_range / the callback return 0; (fragmentation, "
         "single-range path) dwr_split / dwr_frags_state: for ANY bytes, one dl_write_range call with a ++ b ends in exactly the state "
         "of the call with a followed - if a was taken completely and a chunk is still open, as at every cut of a well-formed payload - "
-        "by the call with b, and fails exactly when that fails, lifted to any list of fragments.  Fragmentation independence of the "
-        "MULTIPART path and completeness for well-formed responses are NOT theorems: they are evaluated on the implementation over "
+        "by the call with b, and fails exactly when that fails, lifted to any list of fragments; (completeness, single-range path) "
+        "complete_single / complete_single_bytes: the stored bytes of exactly the requested chunks in request order, each hashing to "
+        "its index checksum, make dl_write_range take every byte and mark every requested chunk valid, with the server's bytes at "
+        "each extent or an explicit hash collision.  Fragmentation independence and completeness of the MULTIPART path are NOT theorems: they are evaluated on the implementation over "
         "families of fragmentations of the same response (all 1-cut, all 2-cut in thorough, 1..7-byte pieces, sampled k-cuts), against "
         "a reference server, with the model run on the same inputs.",
    design_ref="DESIGN.md section 7 C05",
-   note="Partial: multipart frag_indep and wellformed_complete are checked, not proved (the single-range fragmentation law is proved). Trusted: Lean kernel (axioms propext, Classical.choice, "
+   note="Partial: the multipart path's frag_indep and completeness are checked, not proved (for plain single-range responses all clauses are proved on the model). Trusted: Lean kernel (axioms propext, Classical.choice, "
         "Quot.sound); hand-written model tied to the C by correspondence on explored inputs only; glibc regex enters as a logged oracle.",
    technique="Lean 4 proof (invariant over the six write-path fields preserved by three primitive steps, lifted generically through "
              "dl_write_range / multipart loop / callbacks by induction over fuel and fragment list; list-slice algebra for writes at "
